@@ -170,6 +170,9 @@ fn hash_of<T: Hash>(t: &T) -> u64 {
 
 fn c13<L: Lib>(s: &str, verbose: bool) -> String {
     let len = s.len();
+    // an equal string at a different address (also for "", whose own pointer is dangling)
+    let other_buf = format!("{}#", s);
+    let other: &str = &other_buf[..len];
     let mut o = String::new();
     o.push_str("new=");
     let mut valid = Vec::new();
@@ -232,7 +235,7 @@ fn c13<L: Lib>(s: &str, verbose: bool) -> String {
                     Some(None) => "N".to_string(),
                     Some(Some((p, q))) => format!("{}-{}", p, q),
                 };
-                let _ = write!(vb, "{}-{}@{}({},{})={},", a, e, f, arg_s(x), arg_s(y), rs);
+                let _ = write!(vb, "{}-{}@{}({}_{})={},", a, e, f, arg_s(x), arg_s(y), rs);
             } else {
                 match res {
                     None => h = feed(h, 1),
@@ -273,12 +276,11 @@ fn c13<L: Lib>(s: &str, verbose: bool) -> String {
         let _ = write!(o, "|get=#{:x}:{}", h, cnt);
     }
     // merge, ==, Hash consistency; `other` is an equal string at another address
-    let other = s.to_string();
     let mut h = 0u64;
     let mut cnt = 0u64;
     vb.clear();
     for (a1, e1, s1) in valid.iter() {
-        let o1 = L::span_new(&other, *a1, *e1);
+        let o1 = L::span_new(other, *a1, *e1);
         for (a2, e2, s2) in valid.iter() {
             cnt += 1;
             let m = guard(|| L::merge(s1, s2).map(|g| L::se(&g)));
